@@ -244,3 +244,14 @@ impl Cli {
         }
     }
 }
+
+/// glibc malloc tuning: keep large blocks inside the arenas instead of mmap/munmap per allocation.
+/// The codecs allocate and free several hundred KiB per instance; with 16 threads doing that the
+/// kernel's address-space lock becomes the bottleneck (measured: negative scaling).
+pub fn tune_malloc() {
+    unsafe {
+        libc::mallopt(libc::M_MMAP_THRESHOLD, 32 << 20);
+        libc::mallopt(libc::M_TRIM_THRESHOLD, 1 << 30);
+        libc::mallopt(libc::M_TOP_PAD, 16 << 20);
+    }
+}
